@@ -27,7 +27,6 @@ RULE = (
 )
 ASSUMPTIONS = [
     "SetReferenceAbund is emulated from its documented semantics (ab_ref[i] = ref[i]/ref[H]); the compiled path is the thorough-tier cross-check",
-    "the identity clause is only asserted for networks where every element occurring in a species also occurs as an atomic species (otherwise the generated element list does not cover the species)",
     "compositions come from the generator",
 ]
 
@@ -307,11 +306,20 @@ def check_case(case, tier):
                 if pool[i]["k"] == "e" and new[s] != cur[s]:
                     failures.append(("renorm/electron-changed", f"{method}: electron abundance changed from {float(cur[s])} to {float(new[s])}"))
             covered = all(set(comp[s]) <= set(elem) for s in byslot)
-            if case["opt"] == "match" and covered and any(new[s] != cur[s] for s in byslot):
+            if case["opt"] == "match" and any(new[s] != cur[s] for s in byslot):
                 s_bad = next(s for s in byslot if new[s] != cur[s])
-                failures.append((f"renorm/not-identity{tag}", f"{method}: ratios already match but slot {s_bad} ({N.names_of(case)[byslot[s_bad]]}) is scaled by {float(new[s_bad] / cur[s_bad])}"))
+                # (a species with an element that is no atomic species of the network - Mg in MgH+ without Mg - is only partly
+                # covered by the element list: the property makes no exception for it, the key tells the two situations apart)
+                failures.append((f"renorm/not-identity{tag}{'' if covered else '/species-with-unlisted-element'}", f"{method}: ratios already match but slot {s_bad} ({N.names_of(case)[byslot[s_bad]]}) is scaled by {float(new[s_bad] / cur[s_bad])}"))
             results[method] = (A, {s: new[s] for s in byslot})
-            if case.get("compile") and not failures:
+            # the double-precision LU (partial pivoting, as SUNDIALS' dense solver) resolves an element whose total is t*H-total only
+            # to about 1e-16/t when it is coupled to H through a molecule: the cross-check with the exact solve is meaningful for
+            # t >= 1e-9 (error <= 1e-7, tolerance 1e-4)
+            coupled = {e for s in byslot for e in comp[s] if len(comp[s]) >= 2}
+            ill = any(tot0.get(e, Fraction(0)) < H0 * Fraction(1, 10 ** 9) for e in coupled)
+            if case.get("compile") and not failures and ill:
+                labels.append("compiled-cross-check-skipped/ill-scaled-element-system")
+            if case.get("compile") and not failures and not ill:
                 labels.append("compiled-cross-check")
                 compiled_renorm(case, proj, method, byslot, cur, new, ref, names_by_row, nel, failures)
         if len(results) == 2:
